@@ -52,6 +52,9 @@ C18(m, st) ==
       created == [i \in DOMAIN OfK(st, "table") |-> OfK(st, "table")[i].q]
       real == SelectSeq(created, LAMBDA q : \E t \in DOMAIN m.tables : TQ(m, t) = q)
   IN IF e1 = "" \/ ~Acyclic(m) THEN ""
+     \* the known finding F-C18 explains a wrong ORDER of the right statements only: a table that carries an inline FOREIGN KEY
+     \* clause the model does not give it is not explained by it
+     ELSE IF {f \in ObsFks(st) : f.inline} # {f \in ExpFks(m) : f.inline} THEN e1 \o " (and the inline clauses are not the model's)"
      ELSE IF real = [i \in DOMAIN AsBuiltOrder(m) |-> TQ(m, AsBuiltOrder(m)[i])] THEN "dev:F-C18"
      ELSE e1
 
